@@ -9,6 +9,7 @@ from props.base import Context  # noqa: F401
 
 PID = 'C03'
 TIE_MODULES = ['DiffxVerif.Tie.Sections', 'DiffxVerif.Tie.Spec']
+NEEDS = ['sections', 'options', 'text', 'spec_tree']
 ASSUMPTIONS = [
     'foreign files and their expected records are produced by a generator written from docs/spec (harness/props/c03.py + harness/specdoc.py), independent of pydiffx',
     'CPython codecs / json are environment',
@@ -212,7 +213,7 @@ class Spec(object):
                 yield {'data': data, 'want': want[:stop], 'defect': d, 'stop': stop, 'lines': list(lines)}
 
     def request(self, case):
-        return 'read %d %s' % (int(self.tables['chunk']), common.enc_bytes(case['data']))
+        return 'read %d %s' % ((int(self.tables['chunk']) or 96), common.enc_bytes(case['data']))
 
     def impl(self, case):
         return adapters.impl_read(case['data'])
